@@ -3,7 +3,15 @@ from . import common as C
 
 
 def run():
-    ok, out = C.lake_build([])
+    import os, sys
+    sys.path.insert(0, os.path.join(C.VERIF, "tools"))
+    try:
+        import gen_tables
+        gen_tables.main()          # regenerate lean/Dm/Gen/*.lean from /repo's current source
+    except Exception as e:         # noqa: BLE001
+        print("translator failed:", e)
+        return 1
+    ok, out = C.lake_build(["Dm", "dmdriver", "dmgen"])
     if not ok:
         print(out[-4000:])
         return 1
